@@ -95,7 +95,26 @@ func normComment(s string) string {
 // attributed to the recorded CRLF defect (blank lines \r\n\r\n are not recognised), whatever
 // its downstream symptom (merged import groups re-sorted, comments joined to a doc comment and
 // reformatted by go/printer, a trailing comma lost with the line break).
+// a line that holds white space only (the decorator recognises an empty line by the line break
+// directly after a line break, so such a line is two line breaks to it, not a blank line: the recorded
+// finding whitespace-only-blank-line-lost; a repair is pinned out by the baseline's
+// ExampleDecorationPoints, whose expected output documents exactly this reading)
+var wsOnlyLine = regexp.MustCompile(`(?m)^[ \t]+(\r?)$`)
+
 func c03Check(in c03Input) (key, what string) {
+	key, what = c03CheckLineEndings(in)
+	if key == "" || !wsOnlyLine.MatchString(in.Src) {
+		return
+	}
+	// the same text with those lines emptied must pass (or fail only through a recorded CRLF finding)
+	cleaned := c03Input{Src: wsOnlyLine.ReplaceAllString(in.Src, "$1"), Variant: in.Variant, Managed: in.Managed}
+	if k2, _ := c03CheckLineEndings(cleaned); k2 == "" || strings.HasPrefix(k2, "crlf-") {
+		return "whitespace-only-blank-line-lost", "only with white space on blank lines (the same text with those lines emptied passes): " + what
+	}
+	return
+}
+
+func c03CheckLineEndings(in c03Input) (key, what string) {
 	key, what = c03CheckRaw(in)
 	if key == "" || !strings.Contains(in.Src, "\r\n") || strings.HasPrefix(key, "crlf-") {
 		return
@@ -311,6 +330,12 @@ func c03CheckRaw(in c03Input) (key, what string) {
 	// in dst's print that gofmt's first pass left alone, see above)
 	if strings.Join(g, "\x00") == strings.Join(a, "\x00") && strings.Join(b, "\x00") == strings.Join(a, "\x00") {
 		ws, os_ := scanSeq(string(want)), scanSeq(out)
+		// (go/printer itself relocates comments that sit next to tokens it prints without a position --
+		// "[ // c" + "]T" in a parameter moves into the result type --: the interleaving is demanded only
+		// where gofmt kept the input's)
+		if strings.Join(ws, "\x00") != strings.Join(scanSeq(in.Src), "\x00") {
+			return "", ""
+		}
 		if strings.Join(ws, "\x00") != strings.Join(os_, "\x00") {
 			return "c03-comment-moved", "a comment sits between different tokens than in gofmt(input): " + firstListDiff(ws, os_)
 		}
@@ -388,6 +413,8 @@ var c03Known = []string{
 	"package a\r\n\r\nimport (\r\n\t\"b\"\r\n\r\n\t\"a\"\r\n)\r\n",
 	"// Copyright\r\n\r\n//go:build linux\r\n\r\npackage a\r\n",
 	"package a\n\nimport (\n\t\"b\"\n\n\n\t\"a\"\n)\n",
+	// whitespace-only-blank-line-lost
+	"package a\n\nimport (\n\t\"z\"\n\t\n\t\"a\"\n)\n",
 }
 
 func c03Prop(c *Ctx) {
